@@ -257,14 +257,26 @@ fn bstr_wrap(inner: &[u8]) -> Vec<u8> {
 /// Built iteratively from the inside out.
 pub fn b1_header(depth: usize, form: u8) -> Vec<u8> {
     let mut inner: Vec<u8> = vec![0xa1, 0x04, 0x41, 0x11]; // {4: h'11'}
-    for _ in 0..depth {
-        // sig = [bstr(inner), {}, h'']
+    for level in 0..depth {
+        // sig = [bstr(inner), {}, h'']   or, for the mixed forms 3 / 4 on alternate levels,
+        // sig = [h'', inner, h'']  (nesting through the unprotected header)
+        let through_unprotected = match form {
+            3 => level % 2 == 0,
+            4 => level % 3 != 0,
+            _ => false,
+        };
         let mut sig = vec![0x83];
-        sig.extend_from_slice(&bstr_wrap(&inner));
-        sig.extend_from_slice(&[0xa0, 0x40]);
+        if through_unprotected {
+            sig.push(0x40);
+            sig.extend_from_slice(&inner);
+            sig.push(0x40);
+        } else {
+            sig.extend_from_slice(&bstr_wrap(&inner));
+            sig.extend_from_slice(&[0xa0, 0x40]);
+        }
         let mut next = vec![0xa1, 0x07];
         match form {
-            0 => next.extend_from_slice(&sig),
+            0 | 3 | 4 => next.extend_from_slice(&sig),
             1 => {
                 next.push(0x81);
                 next.extend_from_slice(&sig);
